@@ -195,6 +195,24 @@ func crashCases(c *common) []crashCase {
 			}
 		}
 	}
+	// (2c) every form of the surface-language catalogue as a statement that is not the last of a body,
+	// in a function called as an argument of another call, in a let, in a loop, in a closure called twice
+	for fi, f0 := range sessionCatalogue {
+		f := asText(inst(f0, 900000+fi))
+		wraps := []string{
+			"(defn cw%d [] %s 5)\n(+ 100 (cw%d))\n(list (cw%d) (cw%d))\n",
+			"(def r%d (let [z 1] %s z))\n(+ 1 2)\n",
+			"(for [(def i 0) (< i 2) (def i (+ i 1))] %s i)\n(+ 1 2)\n",
+			"(def k%d (fn [] %s nil))\n(list (k%d) (k%d))\n(str (k%d))\n",
+			"(cond %s 1 2)\n(and %s %s)\n",
+		}
+		for wi, wr := range wraps {
+			if c.thorough() || hashSel(c.seed, fi*10+wi, 1, 2) {
+				t := strings.ReplaceAll(strings.ReplaceAll(wr, "%s", f), "%d", fmt.Sprint(910000+fi))
+				add("stmt", "eval", t)
+			}
+		}
+	}
 	// (3) all strings over a token alphabet up to length 3 (thorough: 4 sampled)
 	toks := []string{"(", ")", "[", "]", "{", "}", "\"", "`", "'", "\\", "a", "1", "-", ":", ".", "/", "*", ";", " ", "\n",
 		"~", "~@", "^", "#", "$", "%", "&", "=", ":=", "->", "//", "/*", "*/", ",", "a:", "1.5e", "0x", "'c'", "\"s\"", "and"}
